@@ -6,7 +6,7 @@ PROP, LEVEL = 'C13', 'exploration'
 
 
 def make_cases(tier, seed):
-    n = 400 if tier == 'quick' else 6000
+    n = 900 if tier == 'quick' else 7000
     cases = []
     for i in range(n):
         r = gen.seeded(seed, 'C13', i)
